@@ -316,6 +316,15 @@ def written_as_held(model: Model, run: Run) -> None:
             for x in walk_no_nested(fi.node):
                 if isinstance(x, ast.For):
                     bad = bad or lossy(x.iter)
+                    # the element taken from the field is swapped for something else before it is written
+                    if bad is None and (from_field(x.iter) or (isinstance(x.iter, ast.Name) and any(from_field(b) for b in binds.get(x.iter.id, [])))):
+                        tnames = {t_.id for t_ in ast.walk(x.target) if isinstance(t_, ast.Name)}
+                        for st in x.body:
+                            for a in ast.walk(st):
+                                if isinstance(a, (ast.Assign, ast.AugAssign, ast.AnnAssign)) and getattr(a, "value", None) is not None:
+                                    tg = a.targets if isinstance(a, ast.Assign) else [a.target]
+                                    if any(isinstance(t_, ast.Name) and t_.id in tnames for t_ in tg) and bad is None:
+                                        bad = a.value
                 elif isinstance(x, ast.Call) and isinstance(x.func, ast.Attribute) and x.func.attr.startswith("write_") and x.args:
                     bad = bad or lossy(x.args[0])
             run.ob("W16-fields-written-as-held", bad is None, {"method": fi.qualname.split("sansldap.")[-1]})
